@@ -374,7 +374,8 @@ def arrSem (look : Look) (r : Nat) (xs : List Val) : Op → Out
     else if (dedupe xs).length == xs.length then .same .arrUnique1 .arr r
     else .new .arrUnique2 .arr r (dedupe xs) false
   | .chunk _ n k =>
-    if n < 1 || n > 64 || k < 0 || k * n ≥ (xs.length : Int) then inapplicable
+    if n < 1 then .mark "!"                -- EachSlice: a slice size below one is an argument error
+    else if n > 64 || k < 0 || k * n ≥ (xs.length : Int) then inapplicable
     else .window .arrEachSlice .arr r (k * n) (min (xs.length : Int) ((k + 1) * n))
   | .at _ i =>
     if i < 0 then inapplicable else
@@ -439,7 +440,8 @@ def hashSem (look : Look) (r : Nat) (isMut : Bool) (es : List Val) : Op → Out
     | some k', some v' => .new .mutPutAll .mut r (mergeEntries es [.ent k' v']) true
     | _, _ => inapplicable
   | .chunk _ n k =>
-    if n < 1 || n > 64 || k < 0 || k * n ≥ (es.length : Int) then inapplicable
+    if n < 1 then .mark "!"
+    else if n > 64 || k < 0 || k * n ≥ (es.length : Int) then inapplicable
     else .new .hashEachSlice .arr r ((es.drop (k * n).toNat).take n.toNat) false
   | .asArray _ => .new .hashAsArray .arr r (es.map (fun e => .arr [entKey e, entVal e])) false
   | .get _ x =>
